@@ -3,10 +3,10 @@
 fails with it and passes without it), store it under /verif/seeded/<id>/, then run the registered quick checks against it
 (applied to /repo, undone straight afterwards) and record which of them raise an alarm."""
 import json, os, subprocess, sys, shutil
-OUT = "/tmp/mut/out"
+OUTS = [("/tmp/mut/out", ""), ("/tmp/mut/out2", "r2")]
 WT = "/tmp/mut/confirm"
 SEEDED = "/verif/seeded"
-EXTRA = {"C01": ["C05"], "C04": ["C18"], "C18": ["C04"], "C20": ["C09"], "C17": ["C12", "C18"], "C03": ["C14", "C02"], "C15": ["C13"], "C06": ["C05", "C02"], "C05": ["C06"]}
+EXTRA = {"C01": ["C09"], "C04": ["C09"], "C18": ["C16"], "C20": ["C09"], "C17": ["C19", "C18"], "C03": ["C14", "C02"], "C15": ["C13"], "C06": ["C16", "C02"], "C05": ["C16"], "C13": ["C15"], "C14": ["C03"]}
 def sh(cmd, cwd=None, timeout=3000):
     p = subprocess.run(cmd, shell=True, cwd=cwd, capture_output=True, text=True, timeout=timeout)
     return p.returncode, p.stdout + p.stderr
@@ -16,9 +16,15 @@ def main():
     rc, out = sh("git -C /repo worktree add -q --detach %s HEAD" % WT)
     assert rc == 0, out
     summary = []
-    for prop in sorted(os.listdir(OUT)):
-        for m in sorted(os.listdir(os.path.join(OUT, prop))):
-            name = "%s-%s" % (prop, m)
+    todo = []
+    for OUT, tag in OUTS:
+        if not os.path.isdir(OUT):
+            continue
+        for prop in sorted(os.listdir(OUT)):
+            for m in sorted(os.listdir(os.path.join(OUT, prop))):
+                todo.append((OUT, prop, m, "%s-%s%s" % (prop, tag, m)))
+    for OUT, prop, m, name in todo:
+        if True:
             if only and name not in only and prop not in only:
                 continue
             d = os.path.join(OUT, prop, m)
@@ -56,7 +62,7 @@ def main():
             assert rc == 0, out
             try:
                 for p in props:
-                    rc, out = sh("cd /verif && timeout 1500 /venv/bin/python check.py %s 2>/dev/null | grep -E '^VIOLATION' | head -3" % p)
+                    rc, out = sh("cd /verif && timeout 900 /venv/bin/python check.py %s 2>/dev/null | grep -E '^VIOLATION' | head -3" % p, timeout=1000)
                     lines = [l for l in out.splitlines() if l.startswith("VIOLATION")]
                     results[p] = ("alarm" + (" (no-failing-input-found)" if lines and all("no-failing-input-found" in l for l in lines) else " with failing input")) if lines else "no alarm"
             finally:
